@@ -7,6 +7,7 @@ import (
 	"encoding/json"
 	"fmt"
 	"os"
+	"regexp"
 	"runtime"
 	"sort"
 	"strings"
@@ -63,6 +64,10 @@ func (check) Plan(tier string, seed int64) []harness.Batch {
 		bs = append(bs, harness.Batch{Name: fmt.Sprintf("quiet-shutdown-%d", p), Seed: seed*1000039 + int64(p), Spec: s, TimeoutS: 3000, CaseTimeoutS: 240, Race: true})
 	}
 	for p := 0; p < 2; p++ {
+		s, _ := json.Marshal(spec{Kind: "esc-race", N: 10 * n})
+		bs = append(bs, harness.Batch{Name: fmt.Sprintf("esc-race-%d", p), Seed: seed*1000081 + int64(p), Spec: s, TimeoutS: 3000, CaseTimeoutS: 240, Race: true})
+	}
+	for p := 0; p < 2; p++ {
 		s, _ := json.Marshal(spec{Kind: "fullqueue", N: 3})
 		bs = append(bs, harness.Batch{Name: fmt.Sprintf("fullqueue-%d", p), Seed: seed*1000033 + int64(p), Spec: s, TimeoutS: 600, CaseTimeoutS: 240, Race: true})
 	}
@@ -86,7 +91,12 @@ type sessCase struct {
 	Delay            string `json:"armed_delay_point,omitempty"`
 	Spinner          bool   `json:"spinner"`
 	CloseDuringInput bool   `json:"close_during_input"`
+	// NoCPR: the terminal never answers cursor position requests, so every
+	// CursorPosition call gives up after its deadline
+	NoCPR bool `json:"terminal_ignores_cursor_position_requests,omitempty"`
 }
+
+var cprRe = regexp.MustCompile(`\x1b\[\d+;\d+R`)
 
 var traceMu sync.Mutex
 
@@ -115,7 +125,14 @@ func runSession(w *harness.W, sc sessCase, r gen.R) {
 	defer w.End()
 	before := vaxisGoroutines()
 	caps := refterm.CapsFromMask(sc.Caps)
-	sess, err := vxh.Start(40, 10, caps, vaxis.Options{EventQueueSize: sc.QueueSize}, nil)
+	var setup func(*refterm.Terminal, *memcon.Console)
+	if sc.NoCPR {
+		setup = func(t *refterm.Terminal, c *memcon.Console) {
+			c.ReplyFilter = func(rep []byte) []byte { return cprRe.ReplaceAll(rep, nil) }
+		}
+		w.Count("sessions_with_unanswered_cursor_requests", 1)
+	}
+	sess, err := vxh.Start(40, 10, caps, vaxis.Options{EventQueueSize: sc.QueueSize}, setup)
 	if err != nil {
 		w.Inconclusive("start-failed")
 		return
@@ -589,6 +606,7 @@ func (c check) Run(w *harness.W, b harness.Batch) {
 				Spinner:          r.Intn(2) == 0,
 				CloseDuringInput: r.Intn(2) == 0,
 			}
+			sc.NoCPR = sc.Queries > 0 && r.Intn(3) == 0
 			if r.Intn(2) == 0 {
 				sc.Delay = []string{"ansi.timer.fired", "ansi.timer.beforeReset", "vaxis.cpr.beforeSend", "vaxis.handleSequence", "vaxis.suspend.beforeWait"}[r.Intn(5)]
 			}
@@ -597,6 +615,12 @@ func (c check) Run(w *harness.W, b harness.Batch) {
 	case "fullqueue":
 		for i := 0; i < s.N; i++ {
 			runFullQueue(w, gen.New(r.Int63()))
+		}
+	case "esc-race":
+		for i := 0; i < s.N; i++ {
+			if !runEscRace(w, gen.New(r.Int63())) {
+				break
+			}
 		}
 	case "quiet-shutdown":
 		for i := 0; i < s.N; i++ {
@@ -611,6 +635,123 @@ func (c check) Run(w *harness.W, b harness.Batch) {
 			}
 		}
 	}
+}
+
+// escCase: a lone ESC arms the Escape timer; the timer fires, and while its
+// callback has not yet taken the parser lock (held at the delay point) the
+// rest of the sequence arrives and is consumed. The user typed one key: the
+// result is either that key or, had the callback won, Escape followed by the
+// remaining bytes as text; never both.
+type escCase struct {
+	Caps   uint32   `json:"caps_mask"`
+	Conts  []string `json:"bytes_after_each_lone_esc"`
+	Chunks bool     `json:"rest_in_single_bytes"`
+}
+
+func keyDesc(k vaxis.Key) string {
+	d := fmt.Sprintf("U+%04X", k.Keycode)
+	if k.Modifiers&vaxis.ModAlt != 0 {
+		d += "+alt"
+	}
+	if k.Modifiers&vaxis.ModCtrl != 0 {
+		d += "+ctrl"
+	}
+	return d
+}
+
+func runEscRace(w *harness.W, r gen.R) bool {
+	all := []string{"[A", "x", "[1;5B", "OP", "[Z", "q"}
+	ec := escCase{Caps: []uint32{0, 0x1ffff, uint32(r.Int63()) & 0x1ffff}[r.Intn(3)], Chunks: r.Intn(2) == 0}
+	for i, n := 0, r.Range(2, 5); i < n; i++ {
+		ec.Conts = append(ec.Conts, all[r.Intn(len(all))])
+	}
+	cj, _ := json.Marshal(ec)
+	w.Begin(string(cj))
+	defer w.End()
+	sess, err := vxh.Start(40, 10, refterm.CapsFromMask(ec.Caps), vaxis.Options{}, nil)
+	if err != nil {
+		w.Inconclusive("start-failed")
+		return true
+	}
+	defer sess.Close()
+	defer verifhook.DisarmAll()
+	if _, ok := sess.Sync(); !ok {
+		w.Inconclusive("startup-sync-timeout")
+		return true
+	}
+	w.Case("escrace|" + string(cj))
+	combined := map[string]string{
+		"[A":    fmt.Sprintf("U+%04X", vaxis.KeyUp),
+		"x":     "U+0078+alt",
+		"q":     "U+0071+alt",
+		"[1;5B": fmt.Sprintf("U+%04X+ctrl", vaxis.KeyDown),
+		"OP":    fmt.Sprintf("U+%04X", vaxis.KeyF01),
+		"[Z":    "",
+	}
+	for round, cont := range ec.Conts {
+		fired := make(chan struct{}, 4)
+		release := make(chan struct{})
+		verifhook.Arm("ansi.timer.fired", func() {
+			fired <- struct{}{}
+			<-release
+		})
+		sess.Con.Inject([]byte("\x1b"))
+		select {
+		case <-fired:
+		case <-time.After(10 * time.Second):
+			close(release)
+			w.Inconclusive("escape-timer-never-fired")
+			return true
+		}
+		// the callback is parked before the parser lock: now the rest arrives
+		if ec.Chunks {
+			for i := 0; i < len(cont); i++ {
+				sess.Con.Inject([]byte{cont[i]})
+				for k := 0; k < 2000 && sess.Con.PendingInput() > 0; k++ {
+					time.Sleep(100 * time.Microsecond)
+				}
+			}
+		} else {
+			sess.Con.Inject([]byte(cont))
+		}
+		for k := 0; k < 20000 && sess.Con.PendingInput() > 0; k++ {
+			time.Sleep(100 * time.Microsecond)
+		}
+		time.Sleep(3 * time.Millisecond)
+		close(release)
+		verifhook.Disarm("ansi.timer.fired")
+		time.Sleep(2 * time.Millisecond)
+		evs, ok := sess.Sync()
+		if !ok {
+			w.Inconclusive("esc-race-sync-timeout")
+			return true
+		}
+		var got []string
+		for _, ev := range evs {
+			if k, isKey := ev.(vaxis.Key); isKey {
+				got = append(got, keyDesc(k))
+			}
+		}
+		w.Count("escape_timer_callbacks_overtaken_by_input", 1)
+		alt := []string{fmt.Sprintf("U+%04X", vaxis.KeyEsc)}
+		for _, c := range cont {
+			alt = append(alt, fmt.Sprintf("U+%04X", c))
+		}
+		g := strings.Join(got, " ")
+		want := combined[cont]
+		if cont == "[Z" {
+			// shift+tab: compare by keycode only
+			if len(got) == 1 && strings.HasPrefix(got[0], fmt.Sprintf("U+%04X", vaxis.KeyTab)) {
+				continue
+			}
+			want = fmt.Sprintf("U+%04X", vaxis.KeyTab)
+		}
+		if g != want && g != strings.Join(alt, " ") {
+			w.Violation("esc-timer:stale-timeout-reported-after-more-input", fmt.Sprintf("round %d: ESC, then (after the Escape timer had fired but before its callback ran) %q: the keys delivered are neither the single key nor Escape followed by the bytes as text", round, cont), ec, g, want+"  (or: "+strings.Join(alt, " ")+")")
+			return false
+		}
+	}
+	return true
 }
 
 // signalCase: a termination signal makes the library shut itself down from its
